@@ -234,7 +234,11 @@ impl MCOptimiser {
                 };
             }
             rejections += loop_rejections;
-            kt *= self.kt_ratio;
+            // A temperature of zero stays at zero whatever the cooling ratio, which for a zero
+            // starting temperature can be infinite or NaN.
+            if kt > 0. {
+                kt *= self.kt_ratio;
+            }
 
             // Where the score has converged to the precision of the convergence we can exit early
             if let Some(precision) = self.convergence {
